@@ -106,6 +106,13 @@ IGNORED_CALLS = {"cmm_annotate_mem_acquire", "cmm_annotate_mem_release", "cmm_an
                  "cmm_smp_read_barrier_depends",
                  "cmm_annotate_define", "dbg_printf"}
 # value-preserving wrappers: branch hints, and the by-value transparent-union casts of wfcqueue.h (`{ ._h = head }`)
+# debug hooks that urcu/config.h compiles out (checked against the config header's text at import time)
+try:
+    _cfg = open(os.path.join(REPO, "include", "urcu", "config.h")).read()
+except OSError:
+    _cfg = ""
+if not re.search(r"^\s*#\s*define\s+CONFIG_CDS_LFHT_ITER_DEBUG\b", _cfg, re.M):
+    IGNORED_CALLS |= {"cds_lfht_iter_debug_assert", "cds_lfht_iter_debug_set_ht"}
 IDENTITY_CALLS = {"caa_likely", "caa_unlikely", "__cds_wfcq_head_cast", "cds_wfcq_head_cast",
                   "__cds_wfcq_head_const_cast", "cds_wfcq_head_const_cast"}
 ASSERT_CALLS = {"urcu_assert_debug"}
@@ -740,6 +747,7 @@ class Translator:
         self.memlocals = set()
         self.structparams = set()
         self.struct_locals = set()
+        self.struct_fields = {}
         self.goto_labels = set()
         self.loop_depth = 0
         self.loop_labels = []
@@ -966,7 +974,7 @@ class Translator:
                 raise Unsupported("operator %s" % e[1])
             p1, a = self.rv(e[2])
             p2, b = self.rv(e[3])
-            if e[1] in ("&", "|") and e[2][0] == "ulcast" and self.prefix == "lfht.":
+            if e[1] in ("&", "|") and is_ptrview(e[2]) and self.prefix == "lfht.":
                 return p1 + p2, ".bin .%s (%s) (%s)" % ("tagand" if e[1] == "&" else "tagor", a, b)
             if e[1] in ("&&", "||") and p2:
                 # right operand has effects: keep the short circuit
@@ -980,6 +988,16 @@ class Translator:
                     st = ".ifte (%s) (%s) (%s)" % (a, asg(".lit 1"), self.blk(p2 + [asg(truth % b)]))
                 return p1 + [st], ".var %s" % lstr(t)
             return p1 + p2, ".bin .%s (%s) (%s)" % (ops[e[1]], a, b)
+        if k == "assign" and e[2][0] == "id" and e[2][1] in self.struct_fields and e[2][1] in self.memlocals:
+            # whole-struct copy from a local struct whose members are known (from its initializer): member-wise
+            pa, a = self.addr(e[1])
+            out = list(pa)
+            for f in self.struct_fields[e[2][1]]:
+                t = self.tmp()
+                self.locals.add(t)
+                out += [".assign %s (.pload (.fieldAddr (.addrGlob %s) %s))" % (lstr(t), lstr("&" + e[2][1]), lstr(f)),
+                        ".pstore (.fieldAddr (%s) %s) (.var %s)" % (a, lstr(f), lstr(t))]
+            return out, ".lit 0"
         if k == "assign":
             p, v = self.rv(e[2])
             lhs = e[1]
@@ -1187,6 +1205,7 @@ class Translator:
         if k == "label":
             return []
         if k == "structinit":
+            self.struct_fields[s[1]] = [f for f, _ in s[2]]
             out = []
             for f, e in s[2]:
                 p, v = self.rv(e)
@@ -1358,6 +1377,11 @@ class Translator:
         raise Unsupported("statement %r" % (k,))
 
 
+def is_ptrview(e):
+    """`(unsigned long) p` of a pointer-typed p, possibly already and-ed / or-ed with flag masks"""
+    return e[0] == "ulcast" or (e[0] == "bin" and e[1] in ("&", "|") and is_ptrview(e[2]))
+
+
 def contains_kind(t, kind, stop=("loop", "while", "dowhile")):
     """does statement tree t contain a statement of this kind (not looking into nested loops for break/continue)"""
     if isinstance(t, tuple) and t and t[0] == kind:
@@ -1508,7 +1532,7 @@ UNITS = [
       ("cds_lfht_next_duplicate", "src/rculfhash.c"), ("cds_lfht_next", "src/rculfhash.c"), ("cds_lfht_first", "src/rculfhash.c"),
       ("cds_lfht_add", "src/rculfhash.c"), ("cds_lfht_add_unique", "src/rculfhash.c"), ("cds_lfht_add_replace", "src/rculfhash.c"),
       ("cds_lfht_replace", "src/rculfhash.c"), ("cds_lfht_del", "src/rculfhash.c"), ("cds_lfht_is_node_deleted", "src/rculfhash.c")],
-     ("check_resize", "ht_count_add", "ht_count_del", "cds_lfht_iter_debug_set_ht", "cds_lfht_iter_debug_assert")),
+     ("check_resize", "ht_count_add", "ht_count_del")),
     ("poll.", (), ("src/urcu-poll-impl.h",), ["src/urcu-poll-impl.h"],
      [("urcu_poll_worker_cb", "src/urcu-poll-impl.h"), ("start_poll_synchronize_rcu", "src/urcu-poll-impl.h"),
       ("poll_state_synchronize_rcu", "src/urcu-poll-impl.h")], ("call_rcu",)),
